@@ -8,7 +8,7 @@ from harness import htaio
 from harness.props import common as C
 from harness.props.c04 import _COMM, is_computation
 
-N_CASES = {"quick": 150, "thorough": 2400}
+N_CASES = {"quick": 240, "thorough": 2400}
 SHRINK = True
 ASSUMPTIONS = [
     "integer timestamps after loading; non-negative durations; each rank has at least one communication kernel (quantifier)",
